@@ -2,6 +2,7 @@ import Driver.Proto
 import IpfixModel.Model.Agg
 import IpfixModel.Spec.C06
 import IpfixModel.Spec.C07
+import IpfixModel.Spec.C05
 namespace Driver
 open Ipfix Ipfix.Agg
 
@@ -195,6 +196,73 @@ def chkAggC (t : C07.Tracker) (a : List String) : C07.Tracker × String :=
         match ss.filterMap (C07.checkShown t') with
         | w :: _ => (t', s!"fails dump {w}")
         | [] => (t', "holds")
+    | _ => (t, "fails obs")
+  | _ => (t, "na")
+
+def parseShown05 (tok : String) : Option (Nat × C05.Shown) :=
+  match tok.splitOn "=" with
+  | [k, d] =>
+    let f := d.splitOn "/"
+    if f.length != 17 then none
+    else do
+      let k ← k.toNat?
+      let en ← (f.getD 3 "").toNat?
+      let st ← parseNats (f.getD 6 "")
+      let sr ← parseNats (f.getD 7 "")
+      let ds ← parseNats (f.getD 8 "")
+      let es ← (f.getD 9 "").toNat?
+      let ed ← (f.getD 10 "").toNat?
+      let t ← parseNats (f.getD 11 "")
+      let ts ← parseNats (f.getD 12 "")
+      let td ← parseNats (f.getD 13 "")
+      pure (k, { end_ := en, stats := st, src := sr, dst := ds, endSrc := es, endDst := ed, thr := t, thrSrc := ts, thrDst := td })
+  | _ => none
+
+/-- check every shown record whose history respects the contract; `(failure?, #judged, #outside)` -/
+def judge05 (t : C05.Tracker) (shown : List (Nat × C05.Shown)) : Option String :=
+  (shown.filterMap fun (k, s) =>
+    let h := t.hist k
+    if C05.contract h then (C05.checkShown h s).map fun w => s!"{w} {k}" else none).head?
+
+/-- `chk agga <op> | <impl obs>`: the arithmetic specification (Spec.C05) on the implementation's trace -/
+def chkAggA (t : C05.Tracker) (a : List String) : C05.Tracker × String :=
+  let (op, obs) := splitBar a
+  match op with
+  | ["new", _, _] => ({}, "holds")
+  | "rec" :: rest =>
+    match parseRec rest, obs with
+    | some r, ["ok"] => (t.add r.key (.record r), "holds")
+    | _, _ => (t, "fails record-refused")
+  | ["scan", _, reset] =>
+    match obs with
+    | ["cb", cbs, res] =>
+      if cbs == "-" then (t, "holds")
+      else
+        let shown := (cbs.splitOn ";").map parseShown05
+        if shown.any (·.isNone) then (t, "fails obs")
+        else
+          let ss := shown.filterMap id
+          let verdict := judge05 t ss
+          -- the callback resets the statistics of every flow it exported successfully
+          let okKeys := if res == "fail" then (ss.map (·.1)).dropLast else ss.map (·.1)
+          let t' := if reset == "1" then okKeys.foldl (fun t k => t.add k .reset) t else t
+          match verdict with
+          | some w => (t', s!"fails export {w}")
+          | none => (t', "holds")
+    | _ => (t, "fails obs")
+  | ["dump"] =>
+    match obs with
+    | ["-"] => ({}, "holds")
+    | [d] =>
+      let shown := (d.splitOn ";").map parseShown05
+      if shown.any (·.isNone) then (t, "fails obs")
+      else
+        let ss := shown.filterMap id
+        let t' : C05.Tracker := { flows := t.flows.filter fun f => ss.any (·.1 == f.1) }
+        if ss.length != t'.flows.length then (t', "fails one-flow-per-key")
+        else match judge05 t' ss with
+          | some w => (t', s!"fails dump {w}")
+          | none => (t', "holds")
     | _ => (t, "fails obs")
   | _ => (t, "na")
 
